@@ -27,7 +27,7 @@ ASSUMPTIONS = ['order between the invariant blocks of different active states is
                'conditions are side-effect free apart from the probe']
 KINDS = ['state.pre', 'state.post', 'state.inv', 'trans.pre', 'trans.inv_before', 'trans.post', 'trans.inv_after',
          'state.inv_on_none_step']
-REQUIRED_COUNTERS = ['runs_with_second_live_interpreter', 'text_collision_steps', 'grammar_steps_checked', 'faults_injected', 'old_values_checked'] + ['fault_' + k for k in KINDS]
+REQUIRED_COUNTERS = ['empty_context_cases', 'runs_with_second_live_interpreter', 'text_collision_steps', 'grammar_steps_checked', 'faults_injected', 'old_values_checked'] + ['fault_' + k for k in KINDS]
 TIERS = dict(quick=dict(steps=25, faults=25, gen=dict(max_states=10, max_depth=4, max_trans=12)),
              thorough=dict(steps=45, faults=400, gen=dict(max_states=16, max_depth=5, max_trans=20)))
 
@@ -104,6 +104,7 @@ def fresh(ch, valseed, p_true, cond_plan=None, ignore_contract=False):
     pr = Probes(val=make_val(valseed, p_true))
     pr.cond_plan = cond_plan
     it = Interpreter(sc, initial_context=pr.context(v=0, box=Box(), lst=[]), ignore_contract=ignore_contract)
+    it.attach(pr.listener())        # somebody listens: nothing may be delivered after a failing condition either
     return sc, tmap, pr, it
 
 
@@ -264,9 +265,45 @@ def collision_case(acc, rnd):
         acc.count('text_collision_steps')
 
 
+def empty_context_case(acc, rnd):
+    """A statechart without preamble, run without initial_context: the context is empty when the first states are entered,
+    so their __old__ is an *empty* snapshot - which is not the same as no snapshot."""
+    from sismic.model import BasicState, CompoundState, Statechart, Transition
+    sc = Statechart('empty context')
+    root = CompoundState('root', initial='a', on_entry='x = 1')
+    root.invariants.append("not hasattr(__old__, 'x')")
+    root.invariants.append("len(__old__) == 0")
+    a = BasicState('a', on_entry='y = x + 1')
+    a.invariants.append("'y' not in __old__ and __old__.x == 1")
+    a.postconditions.append("'y' not in __old__")
+    sc.add_state(root, None)
+    sc.add_state(a, 'root')
+    sc.add_state(BasicState('b'), 'root')
+    t = Transition('a', 'b', event='go', action='z = 5')
+    t.postconditions.append("'z' not in __old__ and __old__.y == 2")
+    sc.add_transition(t)
+    it = Interpreter(sc)
+    acc.count('empty_context_cases')
+    try:
+        it.execute_once()
+        for _ in range(rnd.randint(0, 2)):
+            it.execute_once()
+        it.queue('go')
+        it.execute_once()
+        it.execute_once()
+    except Exception as e:      # noqa
+        acc.violation('C08:true-condition-raised', 'conditions that hold (they look at what __old__ does not contain yet) raised %s: %s'
+                      % (type(e).__name__, str(e)[:300].replace('\n', ' ')), dict(scenario='empty context'))
+        return
+    if it.context.get('z') != 5:
+        acc.violation('C08:true-condition-raised', 'scenario did not run to its end', dict(context=dict(it.context)))
+
+
 def run_case(acc, rnd, tier, case):
     if case % 10 == 9:
         return collision_case(acc, rnd)
+    if case % 10 == 8:
+        return empty_context_case(acc, rnd)
     T = TIERS[tier]
     ch = gen_chart(rnd, contracts=True, p_contract=rnd.choice((0.35, 0.5, 0.7)), mode=rnd.choice((None, 'orth', 'history')),
                    p_hist=0.3, **T['gen'])
